@@ -100,10 +100,11 @@ fn do_bump_str(src: &str, nexts: usize, n: usize) -> String {
     for _ in 0..nexts {
         lex.next();
     }
+    let pre = lex.span();
     let r = catch_unwind(AssertUnwindSafe(|| lex.bump(n)));
     let sp = lex.span();
     let valid = sp.start <= sp.end && sp.end <= src.len() && src.is_char_boundary(sp.start) && src.is_char_boundary(sp.end);
-    let mut out = format!("{} {} {}", if r.is_ok() { "ok" } else { "panic" }, sp.start, sp.end);
+    let mut out = format!("pre:{}-{} {} {} {}", pre.start, pre.end, if r.is_ok() { "ok" } else { "panic" }, sp.start, sp.end);
     if valid {
         // only then is it defined to look at the slices
         let sl = catch_unwind(AssertUnwindSafe(|| (lex.slice().to_string(), lex.remainder().to_string())));
@@ -122,10 +123,11 @@ fn do_bump_bytes(src: &[u8], nexts: usize, n: usize) -> String {
     for _ in 0..nexts {
         lex.next();
     }
+    let pre = lex.span();
     let r = catch_unwind(AssertUnwindSafe(|| lex.bump(n)));
     let sp = lex.span();
     let valid = sp.start <= sp.end && sp.end <= src.len();
-    let mut out = format!("{} {} {}", if r.is_ok() { "ok" } else { "panic" }, sp.start, sp.end);
+    let mut out = format!("pre:{}-{} {} {} {}", pre.start, pre.end, if r.is_ok() { "ok" } else { "panic" }, sp.start, sp.end);
     if valid {
         let sl = catch_unwind(AssertUnwindSafe(|| (lex.slice().to_vec(), lex.remainder().to_vec())));
         match sl {
